@@ -21,9 +21,9 @@ static const q128 U53 = 0x1p-53Q;
 inline q128 gamma_k(int k) { return k * U53 / (1 - k * U53); }
 
 inline double val(uint64_t idx, int range) {
-  static const double special[] = {0.0, -0.0, 1.0, -1.0, 0x1p300, -0x1p300, 0x1p-300, 3.5};
+  static const double special[] = {0.0, -0.0, 1.0, -1.0, 0x1p300, -0x1p300, 0x1p-300, 3.5, 0x1p-520, -0x1.8p-515, 0x1p-1021, -0x1.4p-1000};
   uint64_t h = (idx + 1) * 0x9E3779B97F4A7C15ull; h ^= h >> 31;
-  if (range == 1 && idx % 9 == 0) return special[(h >> 8) % 8];
+  if (range == 1 && idx % 9 == 0) return special[(h >> 8) % 12];
   return ((double)(int64_t)(h >> 20) - 8796093022208.0) / 4194304.0;
 }
 
@@ -37,7 +37,7 @@ inline void r4_addmul_q(q128* acc, q128* accabs, const double* u, const double* 
 }
 inline bool within(const double* got, const q128* exact, const q128* absum, int n, int kops, std::string& err, const char* what) {
   for (int i = 0; i < n; ++i) {
-    q128 tol = gamma_k(kops) * absum[i] + 0x1p-1000Q;
+    q128 tol = gamma_k(kops) * absum[i] + (q128)kops * 0x1p-1074Q;  // + one subnormal rounding per operation (gradual underflow)
     q128 e = fabsq((q128)got[i] - exact[i]);
     if (!(e <= tol)) { err = sfmt("%s: component %d is %.17g, exact %.17g, error %.3g exceeds the a-priori bound %.3g", what, i, got[i], (double)exact[i], (double)e, (double)tol); return false; }
   }
@@ -78,7 +78,7 @@ inline std::string judge_pointwise(const PW& k, uint64_t m, const double* r, con
     q128 er = ar * br - ai * bi, ei = ar * bi + ai * br;
     q128 sr = fabsq(ar * br) + fabsq(ai * bi), si = fabsq(ar * bi) + fabsq(ai * br);
     if (k.addmul) { er += r0[re]; ei += r0[im]; sr += fabsq((q128)r0[re]); si += fabsq((q128)r0[im]); }
-    q128 tolr = gamma_k(4) * sr + 0x1p-1000Q, toli = gamma_k(4) * si + 0x1p-1000Q;
+    q128 tolr = gamma_k(4) * sr + 6 * 0x1p-1074Q, toli = gamma_k(4) * si + 6 * 0x1p-1074Q;  // + subnormal roundings (gradual underflow must be honoured)
     q128 dr = fabsq((q128)r[re] - er), di = fabsq((q128)r[im] - ei);
     if (!(dr <= tolr) || !(di <= toli)) return sfmt("complex number %llu: got (%.17g, %.17g), exact (%.17g, %.17g)", (unsigned long long)i, r[re], r[im], (double)er, (double)ei);
   }
